@@ -218,6 +218,11 @@ def resolve(st: State, op):
     n = model.fresh()
     if kind == 'evict':
         return {'a': 'evict', 'expect': 'accept'}
+    if kind == 'bad_currency' and r[1] % 5 == 0:
+        # a currency declared on a type derived from Money: whatever the
+        # library makes of it, if it refuses nothing may stay behind
+        return {'a': 'subtype_currency', 'name': f'V{n}', 'sym': f'C{n}',
+                'expect': 'follow', 'bad': 'currency_on_a_money_subtype'}
     if kind == 'bad_currency':
         act = dict(BAD_CURRENCY[r[0] % len(BAD_CURRENCY)])
         if act['a'] == 'currency_new':
@@ -748,6 +753,15 @@ def perform(env: Env16, act):
                     except Exception:       # noqa
                         pass
         return 'ok', {'done': done}
+    if a == 'subtype_currency':
+        from quantity.money import Money
+        try:
+            sub_money = type(Money)(act['name'], (Money,), {})
+            u = sub_money.new_unit(act['sym'], 'token ' + act['sym'])
+        except Exception as e:      # noqa
+            return 'exc', type(e).__name__
+        env.units[act['sym']] = u
+        return 'ok', {}
     if a == 'bad_term_type':
         from quantity.term import Term
         u = env.units[act['unit']]
